@@ -762,7 +762,10 @@ TRUSTED = ['numpy/pandas inside the real loaders', 'the text transformations and
            'harness/props/c08.py (the oracle never looks at the model)', 'C07 case generators and writer wrappers',
            'numericalunits (values of the base units under a configuration) and the hand-encoded LAMMPS units page '
            '(c07.ORACLE_UNITS) for the expected numbers under non-default working units',
-           'the operating system file layer under the route scripts (open / truncate / read of named files)']
+           'the operating system file layer under the route scripts (open / truncate / read of named files)',
+           'translate_source in harness/props/c08.py (ast walk of the four reader sources into Generated/LoadSource.lean; a '
+           'mis-translation goes unnoticed only if it agrees with the hand model in every gen_..._eq_model) and '
+           'ast.unparse as the normal form of the statement pins']
 MANIFEST = {
     'text': 'Lean model of the four loaders as coded (data-file first pass with term patterns, comment stripping, section '
             'offsets, atom_style comment, Masses, image flags re-applied as lattice shifts in id order; dump-file header '
